@@ -458,9 +458,58 @@ def _cost_job(family):
     return out
 
 
+def _member_cost_job(family):
+    """Cost and call depth of asking the real manager about a term (`t in manager`) and of substituting a term for a
+    symbol (`v.substitute({v: t})`, which checks its map against the manager): the same for a tower x' = op(x, x) of
+    nesting depth 4, 8 and 12 up to the number of nodes - not a walk over all paths, no recursion over the nesting."""
+    levels = (4, 8, 12)
+
+    def one(ex):
+        it, w, env = _fresh(ex)
+        it.max_loop = 100000
+        x = _build(w, env, ("Or", "a", "b") if family == "bool" else ("Plus", "x", "y"))
+        v = env["c"] if family == "bool" else env["x"]
+        out = {}
+        for k in range(1, levels[-1] + 1):
+            x = w.app("And" if family == "bool" else "Plus", x, x)
+            if k in levels:
+                s0, d0 = it.steps, it.depth
+                it.max_depth = it.depth
+                it.contains(w.mgr, x)
+                c_in, d_in = it.steps - s0, it.max_depth - d0
+                s0 = it.steps
+                it.max_depth = it.depth
+                it.call(it.getattr(v, "substitute"), [{v: x}])
+                out[k] = (c_in, d_in, it.steps - s0, it.max_depth - d0)
+        return out
+    try:
+        paths = Explorer(max_paths=2).run(one)
+    except Unsupported as e:
+        return [("unsupported", "membership %s" % family, str(e))]
+    out = []
+    for p in paths:
+        if p.kind != "return":
+            out.append(("unsupported", "membership %s" % family, "%s %s" % (p.kind, str(p.value)[:200])))
+            continue
+        c = p.value
+        (a_in, ad_in, a_sub, ad_sub), (b_in, bd_in, b_sub, bd_sub), (c_in, cd_in, c_sub, cd_sub) = c[levels[0]], c[levels[1]], c[levels[2]]
+        if c_in > 4 * a_in + 40 or cd_in - ad_in >= levels[2] - levels[0]:
+            out.append(("bad", "membership-cost|%s" % family,
+                        "`t in manager` costs %d steps (call depth %d) for a tower of depth %d and %d steps (call depth %d) at depth %d: "
+                        "the test walks the term instead of looking it up" % (a_in, ad_in, levels[0], c_in, cd_in, levels[2])))
+        elif c_sub > 6 * b_sub + 200 or cd_sub - ad_sub >= levels[2] - levels[0]:
+            out.append(("bad", "substitute-value-cost|%s" % family,
+                        "substituting a tower for a symbol costs %d steps (call depth %d) at depth %d and %d steps (call depth %d) at depth %d: "
+                        "the work follows the paths / the nesting of the replacement, not its nodes" % (b_sub, bd_sub, levels[1], c_sub, cd_sub, levels[2])))
+        else:
+            out.append(("ok", "membership / substitution of a %s tower" % family,
+                        "steps at depth %s: in %s, substitute %s" % (list(levels), [a_in, b_in, c_in], [a_sub, b_sub, c_sub])))
+    return out
+
+
 def cost_results():
     out = []
-    for r in parallel_map(_cost_job, ["bool", "arith", "bool+rejections", "arith+rejections"]):
+    for r in parallel_map(_cost_job, ["bool", "arith", "bool+rejections", "arith+rejections"]) + parallel_map(_member_cost_job, ["bool", "arith"]):
         out.extend(r)
     return out
 
